@@ -149,6 +149,40 @@ def check(tier, seed):
                 rep.violation("c15_diag_owner_%d" % nown, "# the diagnostics of a failing compile depend on / leak into earlier compilations\n# target %r after %r\n# alone: %r\n# now:   %r\n# earlier programs whose message count changed: %s\n# outcome %s\n# stderr: %s"
                               % (tgt, [p[:40] for p in pre], bkey, key, grew, io["kind"], r["err"][-600:].replace("\n", "\n# ")), True)
             h.cleanup(r)
+    # (3b) the working directory of the process is state as well: module search along a relative NEVER_PATH (found in the first
+    # element, in the last, nowhere) must leave the process where it was — a later compile resolves relative names from there
+    USES = ["use nosuchmodule_xyz\nfunc main() -> int { 1 }\n", "use vshapes\nfunc main() -> int { 1 }\n", "func main() -> int { 1 }\n"]
+    lk = os.path.join(VERIF, "corpus", "leak")
+    ncwd = 0
+    for np in ("modules", ".:modules", "modules:.", "nonexistent_dir_verif:modules", "modules:nonexistent_dir_verif"):
+        for pre in ([USES[0]], [USES[1]], [USES[0], USES[1]], [USES[1], USES[0]]):
+            r = h.run(src=USES[1], trace=False, calls="main", pre=pre, cwd=lk, never_path=np)
+            ncwd += 1
+            moved = [l for l in r["lines"] if l.startswith("cwd_after") and l.endswith(" 1")]
+            comp = [l for l in r["lines"] if l.startswith("compile ")]
+            if (moved or not comp or not comp[0].startswith("compile 0")) and viol < 3:
+                viol += 1
+                rep.violation("c15_cwd_%d" % ncwd, "# a compilation left the process in another working directory, or a module that is on the (relative) search path is no longer found after an earlier compilation\n# NEVER_PATH=%s (relative to %s)\n# pre-compiles: %r\n# result lines: %r\n# stderr: %s"
+                              % (np, lk, pre, [l for l in r["lines"] if l.startswith(("cwd", "compile", "precompile", "msg"))], r["err"][-300:]), True)
+            h.cleanup(r)
+    stats["cwd_cases"] = ncwd
+    # (3c) run-time diagnostics belong to the program that is executing: two programs alive, faults of each on own and shared machines,
+    # a compile in between (harness h_leak's API histories; the ownership test is C16's `message_owner_violations`)
+    import c16, leak_stream as ls, shutil as _sh
+    d16 = scratch_dir("c15own")
+    try:
+        exe16 = ls.build(d16)
+        hist = c16.api_histories()[-1][1]
+        item = dict(name="own", cls="history", history=hist, src="\n".join(" ".join(repr(x) if isinstance(x, str) and " " in x else str(x) for x in st) for st in hist))
+        hres, _ = ls.run_stream(exe16, [item], d16, REPO, tag="own")
+        tr = (hres[0].get("res") or {}).get("trace", "")
+        stats["msg_owner_steps"] = len(re.findall(r" m\d+=", " " + tr))
+        bad = c16.message_owner_violations(hist, tr)
+        if (bad or hres[0].get("crash") or stats["msg_owner_steps"] < 8) and viol < 3:
+            viol += 1
+            rep.violation("c15_msg_owner", "# a run-time diagnostic went to another program's message array (or the history did not run)\n# %s\n# trace: %s\n# crash: %s\n%s" % (bad[:3], tr, (hres[0].get("crash") or "")[-300:], item["src"]), True)
+    finally:
+        _sh.rmtree(d16, ignore_errors=True)
     # (4) a machine whose global initialisation FAILED: every later call must behave like the same call on a fresh machine (which
     # runs the initialisation again and fails again) — not return values computed from globals that were never built
     GINIT = "var z = 0; var a = 5; var b = 10 / z; var c = 7;\nfunc get(x : int) -> int { a + c + x }\nfunc main() -> int { get(1) }\n"
